@@ -88,6 +88,10 @@ def ends_at_boundary(g, ir, bnd, depth=0):
             return False
         last = items[-1]["p"]
         lu = unwrap(last)
+        if lu["t"] == "ref":
+            sb = single_body(g.deref(lu))
+            if sb is not None and sb["t"] == "peek":
+                lu = sb
         if lu["t"] == "peek":
             return requires_boundary(g, lu["p"], bnd)
         if not ends_at_boundary(g, last, bnd, depth + 1):
@@ -214,6 +218,8 @@ def run(c, facts, tier):
         fr = kw.flatten_rest(g, a.rest)
         argp = [x for x in fr if x["keep"]]
         argsem = ",".join(args.arg_sem(g, x["n"], scope) for x in argp) if argp else None
+        if argp and all(never_succeeds(g, x["n"]) for x in argp):
+            argsem = "<rejected>"
         seen.setdefault(a.lit, []).append((ctor, argsem, a))
     for k, want in voc.items():
         got = seen.get(k)
@@ -282,6 +288,9 @@ def run(c, facts, tier):
     # a guard applied at token level to whole categories (e.g. terminated(Test::parse, peek(boundary)))
     for a in prim:
         seq_ir = {"t": "seq", "l": None, "items": [{"p": {"t": "lit", "l": None, "s": a.lit}, "keep": True}] + [{"p": r["n"], "keep": r["keep"]} for r in a.rest]}
+        if never_succeeds(g, seq_ir):
+            c.ob("C05.boundary", a.site, a.lit, True, "%r is always rejected with an error: nothing can follow it" % a.lit, nontrivial=False)
+            continue
         ok = ends_at_boundary(g, seq_ir, bnd)
         wit = None
         if not ok:
@@ -295,6 +304,22 @@ def run(c, facts, tier):
             "after %r%s the next character must be blank, ')' or end of input; the alternative %s" % (a.lit, " and its argument" if a.rest else "", "guarantees it" if ok else "can stop in front of any character, so a longer word is split into two primaries"),
             witness=wit,
         )
+
+    # the leading-options pass applies the option parser outside token(): same obligation there
+    from . import c06 as _c06
+
+    lead = _c06.leading_pass(b, facts.fn(an.role("parse_inner")))
+    lead_ok, lead_det = None, "leading pass not found"
+    if lead is not None:
+        reps = []
+        g.walk(lead, lambda n: reps.append(n) if n["t"] == "rep" else None, follow=False)
+        if reps:
+            item = unwrap(reps[0]["p"])
+            # item = seq[<option [guard]>, ~blank*]: the part before the trailing blank skip must end at a boundary
+            head = item["items"][0]["p"] if item["t"] == "seq" and item["items"] else item
+            lead_ok = ends_at_boundary(g, head, bnd)
+            lead_det = "each leading option is parsed by %s" % peg.show(head)
+    c.ob("C05.boundary", an.role("parse_inner"), "leading options end at a word boundary", lead_ok, lead_det, witness="-depth-print" if lead_ok is False else None)
 
     # ------------------------------------------------------------ C05.whole-arg
     nested = []
@@ -324,7 +349,8 @@ def run(c, facts, tier):
         fr = kw.flatten_rest(g, a.rest)
         if not any(x["keep"] for x in fr):
             continue
-        ok = all(x["cut"] for x in fr)
+        lastkept = max(i for i, x in enumerate(fr) if x["keep"])
+        ok = all(x["cut"] for x in fr[: lastkept + 1])
         c.ob("C05.cut", a.site, a.lit, ok, "blank and argument after %r are %s" % (a.lit, "under cut_err" if ok else "not all under cut_err: a bad argument can fall through to another alternative"))
 
     # ------------------------------------------------------------ C05.arg-lang
@@ -397,6 +423,10 @@ def arg_lang(c, facts, b, g, spec, scope, prim):
         if body is None:
             c.ob("C05.arg-lang", found["fn"], "%s shape" % label, None, "body not a single parser expression")
             return
+        guard = None
+        while body["t"] in ("verify", "trymap") and unwrap(body["p"])["t"] == "alt":
+            guard = body
+            body = unwrap(body["p"])
         live = [a for a in flat_alts(body) if not never_succeeds(g, a)]
         unit_alt, default_alt = None, None
         for a in live:
